@@ -30,3 +30,7 @@ def run(ctx):
     ctx.guard(persistent_state_rule, ctx, "C02.own-pattern")
     from ..rules_misc import assembly_layering_rule
     ctx.guard(assembly_layering_rule, ctx, "C02.assembly-layering")
+    # characterize() is a typing entry point too: it must try every candidate on the record as given (no pre-filter on the
+    # linear sequence)
+    from ..rules_misc import characterize_rule
+    ctx.guard(characterize_rule, ctx, "C02.characterize")
